@@ -109,6 +109,10 @@ TPkg ==
                                    count |-> Cardinality(bad)])
         /\ Judge("C18", unrefused = {}, [l |-> l, run |-> E.run, what |-> "oversize_pkglength_not_refused",
                                          sig |-> "pkglen/oversize_not_refused", n |-> IF unrefused = {} THEN 0 ELSE E.ns[First(unrefused)]])
+        \* lengths of 2^31 and more (byte strings): whatever their low bits look like, none fits 28 bits
+        /\ LET wun == IF Has(E, "wide") THEN Sel(E.wide, LAMBDA i : ~(Small(E.wide[i]) /\ Val(SubSeq(E.wide[i], 1, 4)) <= 268435451) /\ ~E.wpanics[i]) ELSE {} IN
+           Judge("C18", wun = {}, [l |-> l, run |-> E.run, what |-> "oversize_pkglength_not_refused", sig |-> "pkglen/oversize_not_refused",
+                                   wide |-> IF wun = {} THEN <<>> ELSE E.wide[First(wun)], out |-> IF wun = {} THEN <<>> ELSE E.wouts[First(wun)]])
 
 ---------------------------------------------------------------------------
 \* C08: integer constants through every carrier type
